@@ -200,6 +200,14 @@ func (p *C04) Prepare(env *Env, tier string, seed uint64) error {
 			p.nlong++
 		}
 	}
+	// neighbours whose written forms run together when root, accidental and
+	// symbol are concatenated without the underscore (Db_5 / D_b5, 1_1 / 11)
+	for _, pair := range [][3]string{{"degree", "2b_5", "2_b5"}, {"degree", "1_1", "11"}, {"degree", "4#_9", "4_#9"}, {"degree", "1_1/3", "11/3"}, {"degree", "7b_5/1", "7_b5/1"},
+		{"syllable", "Db_5", "D_b5"}, {"syllable", "F#_11", "F_#11"}, {"syllable", "Eb_9/G", "E_b9/G"}, {"syllable", "Ab_5", "A_b5"}} {
+		for _, txt := range []string{pair[1] + "[1] " + pair[2] + "[1]", pair[2] + "[1] " + pair[1] + "[2] " + pair[2] + "[1]", pair[1] + "[1] R[1] " + pair[2] + "[1] " + pair[1] + "[1]"} {
+			mk("sentence", []string{"whole-sentence", "run-together-neighbours"}, []byte(txt), pair[0], true)
+		}
+	}
 	// more than a mebibyte of comments between two groups of chords: what
 	// comes after them is part of the piece
 	for _, n := range []int{1<<20 + 100, 1<<20 + 70000} {
@@ -500,10 +508,61 @@ func (p *C04) Evaluate(env *Env, c *Case) (*Outcome, error) {
 					add("C04/conv-drops-items/"+cmd, fmt.Sprintf("the text has %d chords/rests, the conversion lists %d", len(pr.Items), len(insts)))
 				} else {
 					for k, in := range insts {
-						_, hasChord := in["chord"]
-						if hasChord == pr.Items[k].Rest {
+						ch, hasChord := in["chord"].(map[string]any)
+						if _, any := in["chord"]; any == pr.Items[k].Rest {
 							add("C04/conv-item-kind/"+cmd, fmt.Sprintf("item %d: chord/rest kind differs", k))
 							break
+						}
+						_ = ch
+						_ = hasChord
+					}
+					// a chord is converted by itself: item k of the whole text and item k
+					// alone (same command, same --key) give the same chord, unless a key
+					// change inside the text stands between them
+					keyChange := false
+					for _, it := range pr.Items {
+						for _, m := range it.Meta {
+							if strings.TrimSpace(m.Key) == "key" {
+								keyChange = true
+							}
+						}
+					}
+					if !keyChange && len(insts) > 1 {
+						h := fnv32(string(text))
+						for _, k := range []int{int(h % uint32(len(insts))), int((h / 7) % uint32(len(insts)))} {
+							it := pr.Items[k]
+							if it.Rest {
+								continue
+							}
+							single := it.Degree.Head + it.Degree.Acc
+							if it.Symbol != "" {
+								single += "_" + it.Symbol
+							}
+							if it.Bass != nil {
+								single += "/" + it.Bass.Head + it.Bass.Acc
+							}
+							single += "[1]"
+							if spr := model.Recognise(single); !spr.Accepted || len(spr.Items) != 1 {
+								continue
+							}
+							one := Step{Step: simrt.Step{Argv: append([]string{}, st.Argv...), Seed: st.Seed, Stdin: &simrt.Stream{Data: []byte(single)}}, Note: "conv-single"}
+							r1, err := env.Exec(&one)
+							if err != nil {
+								return nil, err
+							}
+							if !produced(r1) {
+								continue // alone it is refused (unknown symbol ...): nothing to compare
+							}
+							var alone []map[string]any
+							if yaml.Unmarshal(r1.Stdout, &alone) != nil || len(alone) != 1 {
+								continue
+							}
+							a, _ := yaml.Marshal(alone[0]["chord"])
+							b, _ := yaml.Marshal(insts[k]["chord"])
+							if !bytes.Equal(a, b) {
+								add("C04/conv-chord-depends-on-neighbours/"+cmd, fmt.Sprintf("item %d (%q) is converted to %s inside the text and to %s alone (same command, same key)", k, single, first(b, 160), first(a, 160)))
+								break
+							}
 						}
 					}
 				}
@@ -587,4 +646,13 @@ func (p *C04) Assumptions() []string {
 		"accepted = exit 0 and a tree on stdout; rejected = no stdout, a diagnostic on stderr, no crash or hang (the exit-status clause itself belongs to C09)",
 		"token positions (line/col/offset) are not compared",
 	}
+}
+
+func fnv32(x string) uint32 {
+	h := uint32(2166136261)
+	for i := 0; i < len(x); i++ {
+		h ^= uint32(x[i])
+		h *= 16777619
+	}
+	return h
 }
